@@ -3,7 +3,7 @@ The result is shared by several properties and cached per (repository content, f
 import json
 import os
 
-from common import (CACHE, Lock, cached_json, ensure_oracle, framework_hash, log, repo_hash, run_harness, run_tlc,
+from common import (nl_lines, CACHE, Lock, cached_json, ensure_oracle, framework_hash, log, repo_hash, run_harness, run_tlc,
                     tool_error)
 
 FIELD_PROPS = {
@@ -13,7 +13,7 @@ FIELD_PROPS = {
     "mdl": ["C03", "C02"], "mdr": ["C03", "C02"], "aidx": ["C03", "C02"], "eaidx": ["C03", "C02"], "own": ["C03", "C02"],
     "wm1": ["C11", "C04"], "wm2": ["C11", "C04"], "wm3": ["C11", "C04"], "wm4": ["C11", "C04"],
     "lc1": ["C10", "C04"], "lc2": ["C10"], "lc3": ["C10", "C04"],
-    "osp": ["C12", "C05"], "nsp": ["C12"], "osp2": ["C12", "C05"], "nsp2": ["C12", "C06"],
+    "osp": ["C12", "C05"], "nsp": ["C12", "C06"], "osp2": ["C12", "C05"], "nsp2": ["C12", "C06"], "osp3": ["C12", "C05"], "nsp3": ["C12", "C06"],
     "bidi1": ["C09", "C04"], "bidi2": ["C09", "C04"], "bidi3": ["C09", "C04"], "bidi4": ["C09", "C04"], "bidi5": ["C09", "C04"],
 }
 TOOL_FIELDS = {"tiling", "sigexc", "sigascii"}
@@ -27,7 +27,7 @@ def _build(full32, seed):
         if full32:
             args.append("--full32")
         out, t_h = run_harness(args)
-        info = json.loads(out.strip().splitlines()[-1])
+        info = json.loads(nl_lines(out)[-1])
         if info["events"] > 25000:
             # pathological run structure (e.g. a change that makes a probe fail for every other code point):
             # TLC judges one representative run per distinct (signature, observables) class; the runs are
@@ -69,7 +69,7 @@ def _build(full32, seed):
         if bad is None or tiled is None:
             print(res.out[-3000:])
             tool_error("L1 trace not fully consumed by TLC")
-        lines = open(trace).read().splitlines()
+        lines = nl_lines(open(trace).read())
         events = []
         stats = {"runs": 0, "sigs": set(), "wm": 0, "lower": 0, "zs": 0, "bidi_nonL": 0, "ctx": 0, "panics": 0}
         samples = []
